@@ -69,11 +69,16 @@ type c19proc struct {
 func runC19(cfg Config, args []string) int {
 	start := time.Now()
 	rep := &Report{Property: "C19", Level: "exploration", Cfg: cfg, Stats: NewStats(), Start: start, KnownHits: map[string]int{}}
-	env, err := sim.PrepareCopy(cfg.Repo)
+	env, err := sim.Prepare(cfg.Repo)
 	defer env.Cleanup()
 	if err != nil {
 		rep.InfraErr = err
 		return Finish(rep)
+	}
+	if len(args) >= 2 && args[0] == "replay" {
+		if rf, err := LoadReplay(args[1]); err == nil && (rf.Invariant == "C19/skip-decision" || rf.Invariant == "C19/valid-patterns-accepted") {
+			return ReplayCase("C19", args[1], func(c SkipCase) CaseResult { return execSkip(env, c) })
+		}
 	}
 	bin, err := buildMatchsim(cfg, env)
 	if err != nil {
@@ -209,5 +214,30 @@ func runC19(cfg Config, args []string) int {
 	if len(rep.Violations) == 0 && rep.Stats.Counters["n:case-rule-switches-on-live-matcher"] == 0 {
 		rep.InfraErr = fmt.Errorf("no case-rule switch on a live matcher was ever exercised")
 	}
+	if len(rep.Violations) > 0 || rep.InfraErr != nil {
+		return Finish(rep)
+	}
+	// ---- second half: the same model observed in the generated code (skipsim)
+	b := &Batch[SkipCase]{Property: "C19", Level: "exploration", Cfg: cfg, Env: env, N: cfg.N(128, 3000),
+		Gen:      func(i int) SkipCase { return genSkipCase(cfg, i) },
+		Exec:     func(c SkipCase) CaseResult { return execSkip(env, c) },
+		Shrink:   shrinkSkip,
+		Required: []string{"n:methods_with_a_skip"},
+	}
+	rep2 := RunBatch(b, start)
+	worlds := rep2.Stats.Counters["evaluations"]
+	delete(rep2.Stats.Counters, "evaluations")
+	rep2.Stats.Counters["n:skipsim_worlds"] = worlds
+	samples := rep.Stats.Samples
+	rep.Stats.Merge(rep2.Stats)
+	rep.Stats.Samples = append(samples, rep2.Stats.Samples...)
+	rep.Stats.Counters["evaluations"] += rep2.Stats.Counters["n:methods_checked"]
+	rep.Violations, rep.Replays, rep.InfraErr = rep2.Violations, rep2.Replays, rep2.InfraErr
+	for k, v := range rep2.KnownHits {
+		rep.KnownHits[k] += v
+	}
+	rep.Rule += " SECOND HALF (skipsim): generated setup files (5-10 destination fields incl. non-ASCII identifiers with non-trivial folding, a nested struct) with 2-6 methods, each with 1-4 :skip lines (plain paths, regexps, unscoped and scoped inline flags) and :case / :case:off before, between and after them; " +
+		"convergen runs for real and the '// skip:' lines of every generated function must be exactly those the reference traversal predicts under the method's final case rule."
+	rep.Extra["components_real"] = []string{"pkg/option compiled from /repo's working tree (matchsim)", "the convergen binary built from the working tree, go list, goimports (skipsim)"}
 	return Finish(rep)
 }
